@@ -1,5 +1,6 @@
 (* C15/Driver.v — entry points of the correspondence run (extracted to OCaml). *)
 From RM Require Import C15.Model.
+From RM Require C19.Model.
 Open Scope Z_scope.
 
 (* the modelled view of the report, serialised; None = a trap on the modelled path *)
@@ -12,3 +13,10 @@ Definition reparse_ok (doc : list Z) : bool :=
   match parse doc with Some j => list_eqb (serialise j) doc | None => false end.
 
 Definition mk_width (w : Z) : pwidth := if w =? 0 then W32 else if w =? 1 then W64 else WUnknown.
+
+(* the binary32 confidence of a reported bit flip, recomputed from the details the report prints next to it
+   (C19's exact Flocq model of BitFlipDetails::confidence); compared with f32::to_bits of the real value *)
+Definition flip_confidence_bits (b : flip) : Z :=
+  C19.Model.confidence_bits
+    {| C19.Model.d_nc := bf_nc b; C19.Model.d_null := bf_null b; C19.Model.d_low := bf_low b;
+       C19.Model.d_nearby := bf_nearby b; C19.Model.d_poison := bf_poison b |}.
